@@ -188,6 +188,9 @@ class AV:
 TOP = AV()
 
 
+NZ = ("", 0, "nz")   # pseudo relation carried in AV.rel: the value is known to be non-zero
+
+
 def hull(a, b):
     if a is None or b is None:
         return None
@@ -579,6 +582,8 @@ class Analyzer:
                     return AV(iv=tr, mod=(BITS[rv["ty"]], v.mod[1]))
                 if v.iv is not None and fits(v.iv, tr):
                     return AV(iv=v.iv, rel=v.rel)
+                if v.iv is None and NZ in v.rel:
+                    pass
                 if v.iv is not None and rv["ty"] in BITS and rv["from"] in BITS and BITS[rv["ty"]] <= BITS[rv["from"]] or \
                    (v.iv is not None and rv["ty"] in BITS and rv["from"] in BITS and rv["from"][0] == "i"):
                     # sign-extending or truncating cast: value preserved modulo 2^bits(target)
@@ -694,6 +699,10 @@ class Analyzer:
                 t = _decide(op, a.iv, b.iv)
                 if t is True: res = (1, 1)
                 elif t is False: res = (0, 0)
+            if res == (0, 1) and op in ("Eq", "Ne"):
+                # a value known to be non-zero compared with the constant 0
+                if (NZ in a.rel and b.iv == (0, 0)) or (NZ in b.rel and a.iv == (0, 0)):
+                    res = (0, 0) if op == "Eq" else (1, 1)
             return AV(iv=res, cmp=("cmp", op, self._cmpkey(st, rv["a"]), self._cmpkey(st, rv["b"])))
         if op == "Cmp":
             return TOP
@@ -1200,6 +1209,11 @@ class Analyzer:
                     self._refine_key(st, ka, na)
                 if nb[0] <= nb[1]:
                     self._refine_key(st, kb, nb)
+            # non-zero facts (a hole in the middle of an interval)
+            if op == "Ne" and bi == (0, 0) and ai is not None and ai[0] < 0 < ai[1]:
+                self._add_rel(st, ka, {NZ})
+            if op == "Ne" and ai == (0, 0) and bi is not None and bi[0] < 0 < bi[1]:
+                self._add_rel(st, kb, {NZ})
             # relational: a < len(S) etc.
             add_a, add_b = set(), set()
             for (s, off, kd) in b.rel:
@@ -1271,6 +1285,8 @@ class Analyzer:
                 continue
             st.vals[pk] = AV((lo, hi), cur.sid, cur.rel, cur.cmp, cur.ref, cur.ovf, cur.tr, cur.mod, cur.pay)
             for (s, off, kd) in cur.rel:
+                if kd == "nz":
+                    continue
                 ln = st.len_of(s)
                 if kd == "eq":
                     st.lens[s] = (max(ln[0], lo + off), min(ln[1], hi + off)) if max(ln[0], lo + off) <= min(ln[1], hi + off) else ln
@@ -1295,6 +1311,8 @@ class Analyzer:
             st.vals[pk] = AV(cur.iv, cur.sid, cur.rel | frozenset(rels), cur.cmp, cur.ref, cur.ovf, cur.tr, cur.mod, cur.pay)
             if cur.iv is not None:
                 for (s, off, kd) in rels:
+                    if kd == "nz":
+                        continue
                     ln = st.len_of(s)
                     st.lens[s] = (max(ln[0], cur.iv[0] + off), ln[1])
 
